@@ -287,6 +287,11 @@ def main(argv=None):
     # ---- 3. report -------------------------------------------------------------------------
     for f in known_hits:
         print("KNOWN-FINDING: property=%s %s" % (pid, f.get("what", "")))
+    if not a.only:
+        # listed findings this tier's obligations did not run into (e.g. thorough-only inputs): still listed, nothing suppressed
+        for f in open_known:
+            if f not in known_hits:
+                print("KNOWN-FINDING: property=%s %s [listed; not reached by the %s tier in this run]" % (pid, f.get("what", ""), tier))
     for name, why in inconclusive:
         print("INCONCLUSIVE obligation=%s %s" % (name, why[:200]))
     for name, why in harness_errors:
